@@ -76,7 +76,7 @@ fn run_sequence_inner(o: &mut CompOutcome, cap0: usize, ops: &[Op], keep_sample:
             Op::FreeTo(c) => 10 + *c as u64,
             Op::FreeFirst => 2,
             Op::Reset => 3,
-            Op::SetCap(c) => 30 + (*c as usize).cmp(&m.cap) as u64,
+            Op::SetCap(c) => 30 + ((*c as usize).cmp(&m.cap) as i8 + 1) as u64,
             Op::MaybeFree => 4,
         })
         .u(was_full as u64)
